@@ -124,6 +124,12 @@ def gen(rng, tier):
                 ops.append(packet(rng, kd))
                 if rng.random() < 0.7:
                     ops += [2, 3]
+                # the same packet again, byte for byte (MPEG-TS allows duplicate packets; the accumulator has no notion of
+                # them: each one is a packet of its own; seeded C17-v1 swallowed a repeated continuation packet)
+                while rng.random() < 0.15:
+                    ops.append(ops[-1] if isinstance(ops[-1], (bytes, bytearray)) else [o for o in ops if isinstance(o, (bytes, bytearray))][-1])
+                    if rng.random() < 0.7:
+                        ops += [2, 3]
         ops += [2, 3]
         kp = rng.choice([0, 0, 0, 1, 2, 3, 3, 4, 5, 6, 6])
         k = rng.choice([0, 1, 100, 184, 185, 368, 369, 552, 1000]) if kp < 5 else rng.randrange(256 if kp == 5 else 8)
@@ -143,6 +149,13 @@ def gen(rng, tier):
             if rng.random() < 0.1:
                 ops.append(1)
         out.append(mk(rng.choice([0, 1, 3, 6]), rng.choice([1, 100, 185, 400]), ops, "random-bytes"))
+    # 2c. runs of identical packets
+    for _ in range(40 if tier == "quick" else 1500):
+        first = packet(rng, "P")
+        cont = packet(rng, rng.choice(["C", "C", "A"]))
+        ops = [first, 2, 3] + [cont, 2, 3] * rng.randrange(2, 5) + [packet(rng, "C"), 2, 3] + [first, 2, 3] * 2
+        total = 184 * 6
+        out.append(mk(rng.choice([0, 0, 3, 6]), rng.choice([185, 369, 553, total]), ops, "duplicate-packets"))
     # 3. behaviour after completion and after reset
     for _ in range(60 if tier == "quick" else 2000):
         pk = [packet(rng, "P")] + [packet(rng, rng.choice(["C", "A"])) for _ in range(rng.randrange(0, 4))]
